@@ -349,6 +349,19 @@ func c01ApplyEdits(m *mail.Msg, s *gen.MsgSpec, edits []string) *gen.MsgSpec {
 				m.GetParts()[live[idx]].SetContent("content set through Part.SetContent\r\nsecond line =3D with an equals sign\r\n")
 				eff.Parts[idx].Content = []byte("content set through Part.SetContent\r\nsecond line =3D with an equals sign\r\n")
 			}
+		case "set-charset":
+			// parts that exist keep the charset they were created with; only later parts use the new one
+			old := eff.Charset
+			if old == "" {
+				old = "UTF-8"
+			}
+			for i := range eff.Parts {
+				if eff.Parts[i].Charset == "" {
+					eff.Parts[i].Charset = old
+				}
+			}
+			m.SetCharset(mail.Charset(arg))
+			eff.Charset = arg
 		case "new-body":
 			m.SetBodyString(mail.TypeTextPlain, "a new body that replaces every part\r\n")
 			eff.Parts = []gen.PartSpec{{Type: "text/plain", Content: []byte("a new body that replaces every part\r\n")}}
@@ -711,6 +724,9 @@ func runC01(r *ev.Run, rep *ev.ReplayDoc) ev.Summary {
 				if e == "delete-part" || e == "part-content" {
 					e += fmt.Sprintf(":%d", rng.Intn(3))
 				}
+				if rng.Intn(6) == 0 {
+					e = "set-charset:" + gen.Pick(rng, []string{"ISO-8859-1", "UTF-8", "KOI8-R", "US-ASCII", "ISO-8859-15"})
+				}
 				c.Edits = append(c.Edits, e)
 			}
 		}
@@ -729,7 +745,7 @@ func runC01(r *ev.Run, rep *ev.ReplayDoc) ev.Summary {
 					continue
 				}
 				for _, ed := range [][]string{{"reverse-attachments"}, {"reverse-embeds"}, {"unset-attachments"}, {"unset-embeds"}, {"unset-parts"}, {"delete-part:0"}, {"delete-part:1"}, {"delete-part:0", "delete-part:0"},
-					{"part-content:0"}, {"part-content:1"}, {"new-body"}, {"add-alternative"}, {"add-attachment"}, {"add-embed"}, {"delete-part:0", "add-alternative"}, {"unset-attachments", "add-attachment"}, {"delete-part:0", "delete-part:0", "add-embed"}} {
+					{"part-content:0"}, {"part-content:1"}, {"set-charset:ISO-8859-1"}, {"set-charset:KOI8-R", "add-alternative"}, {"set-charset:UTF-8"}, {"new-body"}, {"add-alternative"}, {"add-attachment"}, {"add-embed"}, {"delete-part:0", "add-alternative"}, {"unset-attachments", "add-attachment"}, {"delete-part:0", "delete-part:0", "add-embed"}} {
 					en++
 					rng := r.Rng("c01edit", en)
 					ecases = append(ecases, c01Case{Spec: genSpec(rng, fmt.Sprintf("c01-x%d", en), msgEncs[en%3], p, e, a), Edits: ed})
